@@ -337,7 +337,7 @@ impl Scenario for Scn {
         let now = run.w.now;
         let lix = run.w.log.len();
         run.hist.push((now, lix, op));
-        let inst = Inst::simple("inst", self.host, [10, 0, 0, 9]);
+        let inst = Inst::simple(if self.host == "srvhost" { "inst" } else { "Inst \u{c9}tage" }, self.host, [10, 0, 0, 9]);
         match op {
             Op::Browse | Op::BrowseDropOld | Op::BrowseCache => {
                 if op == Op::BrowseDropOld {
